@@ -58,6 +58,11 @@ def rewritePath (rw : Rewriter) (host orig : Bytes) : Option Bytes :=
     | none => none
     | some q => some (normalizePath (47 :: (vhostHost host ++ q)))   -- ctx.URI().SetPathBytes(b.B); ctx.Path()
 
+/-- uri.go URI.parse for an origin-form request target: pathOriginal is the target up to the first '?' or '#'
+    (a '?' behind the first '#' belongs to the fragment).  u.path = normalizePath(pathOriginal) on every branch:
+    regenerated fact `Gen.assigns_URI_parse_path`, used in `Props.C23.uri_parse_always_normalises`. -/
+def requestPath (target : Bytes) : Bytes := target.takeWhile (fun c => c != 63 && c != 35)
+
 /-- fs.go hasDotDotPathSegment on the unix build: some '/'-separated segment is ".." -/
 def hasDotDot (path : Bytes) : Bool := (splitSlash path).any isDD
 
@@ -104,6 +109,9 @@ def handlePath (cfg : FsCfg) (host orig : Bytes) : Outcome :=
     if path.contains 0 then .badRequest
     else if cfg.rw != .none && hasDotDot path then .dotdot
     else .serve path (pathToFilePath cfg.osfs cfg.root path)
+
+/-- the same, from the raw request target of the request line -/
+def handleTarget (cfg : FsCfg) (host target : Bytes) : Outcome := handlePath cfg host (requestPath target)
 
 inductive FsOp where
   | open_ | stat | remove | mkdirAll | createTemp | readDir
